@@ -107,6 +107,36 @@ pub fn gate_discard(id: u64) -> bool {
     })
 }
 
+thread_local! {
+    static GATE_SPAWNS: std::cell::Cell<bool> = const { std::cell::Cell::new(false) };
+}
+
+/// While set on this thread, every task the record store spawns (through [`spawn`]) first parks at a gate of
+/// site `"spawn"` whose detail is the source location of the spawn call. Background tasks that carry no gate of
+/// their own thereby become schedulable by the simulator as well.
+pub fn set_gate_spawns(on: bool) {
+    GATE_SPAWNS.with(|c| c.set(on));
+}
+
+/// `tokio::spawn` with the optional generic gate described at [`set_gate_spawns`].
+#[track_caller]
+pub fn spawn<F>(future: F) -> tokio::task::JoinHandle<F::Output>
+where
+    F: std::future::Future + Send + 'static,
+    F::Output: Send + 'static,
+{
+    if GATE_SPAWNS.with(|c| c.get()) {
+        let loc = std::panic::Location::caller();
+        let detail = format!("{}:{}:{}", loc.file(), loc.line(), loc.column());
+        tokio::spawn(async move {
+            gate("spawn", detail).await;
+            future.await
+        })
+    } else {
+        tokio::spawn(future)
+    }
+}
+
 /// First statement of every gated spawned closure.
 pub async fn gate(site: &'static str, detail: String) {
     let rx = GATES.with(|g| {
